@@ -52,8 +52,9 @@ def scenario_for(env, coro_cb):
             return {'fired': fired, 'marks': marks, 'horizon': hit,
                     'errors': loop.collect_errors(),
                     'parked': [lb for lb, f in loop.parked if not f.done()],
-                    'left': sorted(repr(k) for k in
-                                   sio.manager.callbacks.get(sid, {}))}
+                    'left': sorted(repr(k) for k in __import__(
+                        'mc.introspect', fromlist=['x']).callbacks_of(
+                            sio.manager).get(sid, {}))}
         return finish
     return scenario
 
